@@ -91,14 +91,19 @@ impl Ellipse {
 
 impl OffsetOutline for Ellipse {
     fn offset(&self, offset: i32) -> Self {
-        let size = if offset >= 0 {
-            self.size.saturating_add(Size::new_equal(2 * offset as u32))
+        if offset >= 0 {
+            // The top left corner is moved directly: a zero sized side has no center pixel.
+            Self::new(
+                self.top_left - Point::new_equal(offset),
+                self.size.saturating_add(Size::new_equal(2 * offset as u32)),
+            )
         } else {
-            self.size
-                .saturating_sub(Size::new_equal(2 * (-offset) as u32))
-        };
+            let size = self
+                .size
+                .saturating_sub(Size::new_equal(2 * (-offset) as u32));
 
-        Self::with_center(self.center(), size)
+            Self::with_center(self.center(), size)
+        }
     }
 }
 
